@@ -2,6 +2,7 @@ import IgrisModel.Common.Proto
 import IgrisModel.C13.Model
 import IgrisModel.C13.Shape
 import IgrisModel.C13.Tie
+import IgrisModel.C13.Canon
 import IgrisModel.C13.Nested
 import IgrisModel.C13.IntW
 open Igris.Proto Igris.C13
@@ -51,6 +52,7 @@ structure DirInfo where
   hasPrec : Bool
   prec : Int
   ops : Igris.C06.Ops
+  width : Int
 
 def dirInfo (fmt : List Char) (stars : List Igris.C06.Arg) : Option DirInfo :=
   let pre := fmt.takeWhile (· ≠ '%')
@@ -58,27 +60,25 @@ def dirInfo (fmt : List Char) (stars : List Igris.C06.Arg) : Option DirInfo :=
   let (s, ops) := Igris.C06.flagsLoop begin.tail {}
   match Igris.C06.getWidth s stars ops with
   | none => none
-  | some (_, s, stars, ops) =>
+  | some (width, s, stars, ops) =>
     match Igris.C06.getPrec s stars ops with
     | none => none
     | some (precision, s, _, ops) =>
       let (s, ops) := Igris.C06.getLen s ops
       let c := Igris.C06.hd s
-      some { pre := pre.length, post := s.tail.length, conv := c.toLower, hasPrec := ops.prec, prec := precision, ops := ops }
+      let ops := if c.isUpper then { ops with upper := true } else ops
+      some { pre := pre.length, post := s.tail.length, conv := c.toLower, hasPrec := ops.prec, prec := precision, ops := ops, width := width }
 
-/-- result field of a floating conversion: the text byte for byte, or - in the tie class of `Tie.lean` - the
-lower neighbour as an exact rational (round 3: the property leaves the direction of a tie open) -/
-def showPF (fmt : List Char) (st : List Igris.C06.Arg) (x : FV) (r : Res) : String :=
+/-- result field of a floating conversion.  Round 3c: for a finite non-zero argument the TOLERANT observable of
+`Canon.lean` (the routine's own text with the number replaced by the correctly rounded reference + the verdict
+within / outside the allowance); zero, non-finite arguments, widths above 5000: the text byte for byte -/
+def showPF (fmt : List Char) (st : List Igris.C06.Arg) (x : FV) (r : Res) (strict : Bool := false) : String :=
   match r, x with
-  | .done out _, .fin _ m =>
+  | .done out pc, .fin neg m =>
     match dirInfo fmt st with
     | some d =>
-      let body := (out.drop d.pre).take (out.length - d.pre - d.post)
-      match tieCanon d.conv d.hasPrec d.prec m body with
-      | some q => "T " ++ toString q.num ++ "/" ++ toString q.den
-      | none =>
-        -- a tie of the engine's own scaled value that is not a tie of the argument (unit finer than the engine's error)
-        if isFine d.conv d.hasPrec d.prec m && tieSeen b64A cfgNow FUEL (.fin false m) d.prec d.ops (d.conv = 'e') (d.conv = 'g') then "Tf" else showRes r
+      if m ≤ 0 || d.width > 5000 || d.width < -5000 || !(d.conv = 'f' || d.conv = 'e' || d.conv = 'g') then showRes r
+      else Igris.C13.Canon.line pc out d.pre d.post d.conv d.ops d.width d.prec neg m strict
     | none => showRes r
   | _, _ => showRes r
 
@@ -117,14 +117,18 @@ def opsOfMask (m : Nat) : Igris.C06.Ops :=
     zero := (m / 16) % 2 = 1, prec := (m / 32) % 2 = 1, upper := (m / 16384) % 2 = 1,
     len := if (m / 8192) % 2 = 1 then .bigL else .none }
 
+/-- ops `pf` / `pfs` (`pfs`: the verdict with the strict allowance of 4 ulps, as the harness oracle of `pfs`) -/
+def pfLine (strict : Bool) (f b : String) (stars : List String) : Option String := do
+  let fmt ← (parseBytes? f).map fun bs => bs.map fun c => Char.ofNat c.toNat
+  let bits ← parseHexNat? b
+  let st ← stars.mapM parseStar
+  pure (showPF fmt st (ofBits bits) (printfF b64A cfgNow fmt st (ofBits bits) (decide (bits ≥ 2 ^ 63))) strict)
+
 def stepLine (_ : Unit) (line : String) : Unit × String :=
   let r : Option String :=
     match words line with
-    | "pf" :: f :: b :: stars | "pfs" :: f :: b :: stars => do
-      let fmt ← (parseBytes? f).map fun bs => bs.map fun c => Char.ofNat c.toNat
-      let bits ← parseHexNat? b
-      let st ← stars.mapM parseStar
-      pure (showPF fmt st (ofBits bits) (printfF b64A cfgNow fmt st (ofBits bits) (decide (bits ≥ 2 ^ 63))))
+    | "pf" :: f :: b :: stars => pfLine false f b stars
+    | "pfs" :: f :: b :: stars => pfLine true f b stars
     | "sh" :: f :: n :: t :: stars | "shm" :: f :: n :: t :: stars => do
       let fmt ← (parseBytes? f).map fun bs => bs.map fun c => Char.ofNat c.toNat
       let text ← (parseBytes? t).map fun bs => bs.map fun c => Char.ofNat c.toNat
@@ -160,12 +164,11 @@ def stepLine (_ : Unit) (line : String) : Unit × String :=
       -- `printFC`: the emission part in C `int` arithmetic (IntW.lean)
       let r := resOf (printFC b64A cfgNow FUEL x (decide (bits ≥ 2 ^ 63)) width precision ops (we = "1") (sh = "1"))
       match r, x with
-      | .done out _, .fin _ mag =>
+      | .done out pc, .fin neg mag =>
         let conv := if sh = "1" then 'g' else if we = "1" then 'e' else 'f'
-        match tieCanon conv ops.prec (if ops.prec then precision else 0) mag out with
-        | some q => pure ("T " ++ toString q.num ++ "/" ++ toString q.den)
-        | none =>
-          if isFine conv ops.prec (if ops.prec then precision else 0) mag && tieSeen b64A cfgNow FUEL (.fin false mag) precision ops (we = "1") (sh = "1") then pure "Tf" else pure (showRes r)
+        let prec : Int := if ops.prec then precision else 0
+        if mag ≤ 0 || width > 5000 then pure (showRes r)
+        else pure (Igris.C13.Canon.line pc out 0 0 conv ops width prec neg mag false)
       | _, _ => pure (showRes r)
     | ["ar", "cvt", se, m] => do
       let se ← parseHexNat? se
